@@ -224,7 +224,7 @@ theorem guardedStore_spec (s : St) (i : IId) (x : Inst) (n : Name) (ip : PId) (v
       by_cases hr : q.readonly = true
       · rw [if_pos hr]; exact Or.inl rfl
       · rw [if_neg hr]
-        split <;> (split <;> exact Or.inl rfl)
+        split <;> exact Or.inl rfl
     · rw [if_neg hf]
       simp only [Bool.or_eq_true, not_or, Bool.not_eq_true] at hf
       exact Or.inr ⟨rfl, rfl, q, rfl, hf.1, hf.2⟩
@@ -319,5 +319,1137 @@ theorem applyKeys_frames (i : IId) (kvs : List (Name × Obj)) (s : St) :
             obtain ⟨f2, c2, h2⟩ := ih s1
             exact ⟨h0.1.trans f2, h0.2.1.trans c2, h2.trans h0.2.2⟩
           all_goals exact h0
+
+/-! ### `edit_constant`: what the entry and the `finally` clause do to the flags -/
+
+def cst (h : List Param) (p : PId) : Option Bool := (h[p]?).map (·.constant)
+
+/-- set the `constant` flag of each listed Parameter object -/
+def foldConst (b : Bool) (l : List PId) (h : List Param) : List Param := l.foldl (fun h p => setConst h p b) h
+
+theorem foldConst_sameRD (b : Bool) (l : List PId) (h : List Param) : SameRD h (foldConst b l h) := by
+  unfold foldConst
+  induction l generalizing h with
+  | nil => exact SameRD.refl h
+  | cons p l ih => simp only [List.foldl_cons]; exact (SameRD.setConst h p b).trans (ih _)
+
+theorem foldConst_cst (b : Bool) (l : List PId) (h : List Param) (p : PId) :
+    cst (foldConst b l h) p = if p ∈ l then (cst h p).map (fun _ => b) else cst h p := by
+  unfold foldConst
+  induction l generalizing h with
+  | nil => simp
+  | cons p0 l ih =>
+    simp only [List.foldl_cons]
+    rw [ih]
+    have h1 : cst (setConst h p0 b) p = if p = p0 then (cst h p).map (fun _ => b) else cst h p := by
+      unfold cst; exact setConst_cst h p0 p b
+    rw [h1]
+    by_cases e : p = p0
+    · subst e
+      simp only [List.mem_cons, true_or, if_true]
+      split <;> cases cst h p <;> simp
+    · simp only [e, if_false, List.mem_cons, false_or]
+
+/-- the Parameter objects the `finally` clause sets to `constant=True`: every remembered one, and
+the per-instance copy registered under its name when that is another object -/
+def touched (ipar : List (Name × PId)) (upd : List (Name × PId)) : List PId :=
+  upd.flatMap fun np => np.2 :: (match aget ipar np.1 with
+    | some ip => if ip ≠ np.2 then [ip] else []
+    | none => [])
+
+theorem entry_heap (s : St) (x : Inst) :
+    (blockEntry s x).1.heap = foldConst false ((blockEntry s x).2.map (·.2)) s.heap := by
+  unfold blockEntry foldConst
+  simp only [List.foldl_map]
+
+theorem entry_rest (s : St) (x : Inst) :
+    (blockEntry s x).1.insts = s.insts ∧ (blockEntry s x).1.classes = s.classes ∧
+      (blockEntry s x).1.nextObj = s.nextObj := ⟨rfl, rfl, rfl⟩
+
+theorem entry_mem {s : St} {x : Inst} {n : Name} {p : PId} (h : (n, p) ∈ (blockEntry s x).2) :
+    pobjOf s x n = some p ∧ ∃ q, s.heap[p]? = some q ∧ q.constant = true := by
+  unfold blockEntry at h
+  simp only [List.mem_filter, List.mem_filterMap] at h
+  obtain ⟨⟨n', _, hn'⟩, hc⟩ := h
+  cases hp : pobjOf s x n' with
+  | none => simp [hp] at hn'
+  | some p' =>
+    simp only [hp, Option.map_some, Option.some.injEq, Prod.mk.injEq] at hn'
+    obtain ⟨rfl, rfl⟩ := hn'
+    refine ⟨hp, ?_⟩
+    cases hq : s.heap[p']? with
+    | none => simp [hq] at hc
+    | some q => simp only [hq] at hc; exact ⟨q, rfl, hc⟩
+
+theorem exit_heap (s : St) (i : IId) (upd : List (Name × PId)) :
+    (blockExit s i upd).heap = foldConst true (touched (iparamsOf s i) upd) s.heap := by
+  unfold blockExit
+  simp only
+  generalize iparamsOf s i = ipar
+  generalize s.heap = h
+  unfold foldConst touched
+  induction upd generalizing h with
+  | nil => rfl
+  | cons np upd ih =>
+    simp only [List.foldl_cons, List.flatMap_cons, List.foldl_append]
+    rw [ih]
+    congr 1
+    unfold exitStep
+    cases aget ipar np.1 with
+    | none => rfl
+    | some ip =>
+      simp only
+      split <;> rfl
+
+theorem exit_rest (s : St) (i : IId) (upd : List (Name × PId)) :
+    (blockExit s i upd).insts = s.insts ∧ (blockExit s i upd).classes = s.classes ∧
+      (blockExit s i upd).nextObj = s.nextObj := ⟨rfl, rfl, rfl⟩
+
+theorem frame_entry (s : St) (x : Inst) : Frame s (blockEntry s x).1 := by
+  have h : (blockEntry s x).1 = { s with heap := (blockEntry s x).1.heap } := rfl
+  rw [h, entry_heap]
+  exact Frame.of_heap (foldConst_sameRD _ _ _)
+
+theorem frame_exit (s : St) (i : IId) (upd : List (Name × PId)) : Frame s (blockExit s i upd) := by
+  have h : blockExit s i upd = { s with heap := (blockExit s i upd).heap } := rfl
+  rw [h, exit_heap]
+  exact Frame.of_heap (foldConst_sameRD _ _ _)
+
+/-- **the heart of `edit_constant`**: whatever the body does — provided it respects the two frames —
+after the `finally` clause every Parameter object that existed at entry has its `constant` flag back -/
+theorem block_constFrame {s s2 : St} {i : IId} {x : Inst} (hx : s.insts[i]? = some x)
+    (hf : Frame (blockEntry s x).1 s2) (hc : ConstFrame (blockEntry s x).1 s2) :
+    ConstFrame s (blockExit s2 i (blockEntry s x).2) := by
+  intro p q hq
+  have hlt : p < s.heap.length := (List.getElem?_eq_some_iff.1 hq).1
+  -- the three heaps at p
+  have e1 : cst (blockEntry s x).1.heap p =
+      if p ∈ (blockEntry s x).2.map (·.2) then (cst s.heap p).map (fun _ => false) else cst s.heap p := by
+    rw [entry_heap]; exact foldConst_cst _ _ _ _
+  have hlen1 : (blockEntry s x).1.heap.length = s.heap.length := by
+    rw [entry_heap]; exact (foldConst_sameRD _ _ _).1
+  obtain ⟨q1, hq1⟩ : ∃ q1, (blockEntry s x).1.heap[p]? = some q1 :=
+    ⟨_, List.getElem?_eq_getElem (by rw [hlen1]; exact hlt)⟩
+  obtain ⟨q2, hq2, c2⟩ := hc p q1 hq1
+  have e3 := foldConst_cst true (touched (iparamsOf s2 i) (blockEntry s x).2) s2.heap p
+  rw [← exit_heap] at e3
+  have hlen3 : (blockExit s2 i (blockEntry s x).2).heap.length = s2.heap.length := by
+    rw [exit_heap]; exact (foldConst_sameRD _ _ _).1
+  obtain ⟨q3, hq3⟩ : ∃ q3, (blockExit s2 i (blockEntry s x).2).heap[p]? = some q3 :=
+    ⟨_, List.getElem?_eq_getElem (by rw [hlen3]; exact (List.getElem?_eq_some_iff.1 hq2).1)⟩
+  refine ⟨q3, hq3, ?_⟩
+  simp only [cst, hq, hq1, hq2, hq3, Option.map_some] at e1 e3
+  -- the instance at exit time
+  obtain ⟨x2, hx2, _, keep, fresh⟩ := hf.insts i x (by rw [(entry_rest s x).1]; exact hx)
+  have hipar : iparamsOf s2 i = x2.iparams := by unfold iparamsOf; rw [hx2]
+  rw [hipar] at e3
+  by_cases hu : p ∈ (blockEntry s x).2.map (·.2)
+  · -- remembered: it was constant, and the `finally` clause sets it again
+    obtain ⟨⟨n, p'⟩, hmem, hp'⟩ := List.mem_map.1 hu
+    simp only at hp'; subst hp'
+    obtain ⟨_, q', hq', hc'⟩ := entry_mem hmem
+    rw [hq] at hq'; cases hq'
+    have ht : p' ∈ touched x2.iparams (blockEntry s x).2 := by
+      unfold touched
+      exact List.mem_flatMap.2 ⟨(n, p'), hmem, by simp⟩
+    simp only [ht, if_true, Option.some.injEq] at e3
+    rw [e3, hc']
+  · -- not remembered: untouched at entry, by the body, and by the `finally` clause
+    simp only [hu, if_false, Option.some.injEq] at e1
+    have ht : p ∉ touched x2.iparams (blockEntry s x).2 := by
+      unfold touched
+      intro hm
+      obtain ⟨⟨n, p0⟩, hmem, hin⟩ := List.mem_flatMap.1 hm
+      simp only [List.mem_cons] at hin
+      rcases hin with e | hin
+      · exact hu (List.mem_map.2 ⟨(n, p0), hmem, e.symm⟩)
+      · cases hip : aget x2.iparams n with
+        | none => simp [hip] at hin
+        | some ip =>
+          simp only [hip] at hin
+          split at hin
+          · rename_i hne
+            simp only [List.mem_cons, List.not_mem_nil, or_false] at hin
+            subst hin
+            -- the copy registered under n at exit: either the remembered object itself, or new
+            cases h0 : aget x.iparams n with
+            | some ip0 =>
+              have := keep n ip0 h0
+              rw [hip] at this; cases this
+              have hp := (entry_mem hmem).1
+              unfold pobjOf at hp
+              rw [h0] at hp
+              simp only [Option.some.injEq] at hp
+              exact hne hp
+            | none =>
+              have := fresh n p h0 hip
+              rw [hlen1] at this
+              exact absurd hlt (Nat.not_lt.2 this)
+          · simp at hin
+    simp only [ht, if_false, Option.some.injEq] at e3
+    rw [e3, c2, e1]
+
+/-! ### Every statement respects the frames -/
+
+/-- a statement that only edits Parameter objects and class dictionaries -/
+theorem frames_heap_classes {s : St} {h' : List Param} (cl' : List Cls)
+    (hh : ∀ (p : PId) (q : Param), s.heap[p]? = some q → ∃ q', h'[p]? = some q' ∧ q'.constant = q.constant ∧
+      q'.readonly = q.readonly ∧ (q.readonly = true → q'.default = q.default))
+    (hl : s.heap.length ≤ h'.length) :
+    Frame s { s with heap := h', classes := cl' } ∧ ConstFrame s { s with heap := h', classes := cl' } := by
+  refine ⟨⟨hl, ?_, fun i x hx => insts_same (s := s) i x hx⟩, ?_⟩
+  · intro p q hq
+    obtain ⟨q', h1, _, h3, h4⟩ := hh p q hq
+    exact ⟨q', h1, h3, h4⟩
+  · intro p q hq
+    obtain ⟨q', h1, h2, _⟩ := hh p q hq
+    exact ⟨q', h1, h2⟩
+
+theorem clsSet_frames (s : St) (c : CId) (n : Name) (v : Obj) :
+    Frame s (step s (.clsSet c n v)).1 ∧ ConstFrame s (step s (.clsSet c n v)).1 := by
+  simp only [step]
+  split
+  · exact ⟨Frame.refl _, ConstFrame.refl _⟩
+  · rename_i p owner hd
+    split
+    · rename_i q k hq hk
+      have hplt : p < s.heap.length := (List.getElem?_eq_some_iff.1 hq).1
+      by_cases e : owner = c
+      · simp only [e, if_true]
+        split
+        · exact ⟨Frame.refl _, ConstFrame.refl _⟩
+        · rename_i hr
+          apply frames_heap_classes (s := s) s.classes
+          · intro p' q' hq'
+            rw [List.getElem?_set]
+            by_cases e' : p = p'
+            · subst e'
+              rw [hq] at hq'; cases hq'
+              simp only [hplt, if_true]
+              exact ⟨_, rfl, rfl, rfl, fun h => absurd h hr⟩
+            · simp only [e', if_false]
+              exact ⟨q', hq', rfl, rfl, fun _ => rfl⟩
+          · simp
+      · simp only [e, if_false]
+        split
+        · apply frames_heap_classes (s := s)
+          · intro p' q' hq'
+            exact ⟨q', append_get hq', rfl, rfl, fun _ => rfl⟩
+          · simp
+        · apply frames_heap_classes (s := s)
+          · intro p' q' hq'
+            have hlt' : p' < s.heap.length := (List.getElem?_eq_some_iff.1 hq').1
+            have hne : ¬ s.heap.length = p' := Nat.ne_of_gt hlt'
+            rw [List.getElem?_set]
+            simp only [hne, if_false]
+            exact ⟨q', append_get hq', rfl, rfl, fun _ => rfl⟩
+          · simp
+    · exact ⟨Frame.refl _, ConstFrame.refl _⟩
+
+theorem newInst_frames (s : St) (c : CId) (kw : List (Name × Obj)) :
+    Frame s (step s (.newInst c kw)).1 ∧ ConstFrame s (step s (.newInst c kw)).1 := by
+  simp only [step]
+  split
+  · exact ⟨Frame.refl _, ConstFrame.refl _⟩
+  · split
+    · exact ⟨Frame.refl _, ConstFrame.refl _⟩
+    · apply frames_of
+      · intro p q h; exact h
+      · intro i x hx
+        refine ⟨x, ?_, rfl, fun _ _ h => h, fun n ip h1 h2 => by rw [h1] at h2; cases h2⟩
+        show (s.insts ++ _)[i]? = some x
+        rw [List.getElem?_append_left (List.getElem?_eq_some_iff.1 hx).1]; exact hx
+
+mutual
+/-- **every statement** — blocks of any nesting depth, with any exit — respects `Frame` -/
+theorem frame_step : ∀ (op : Op) (s : St), Frame s (step s op).1
+  | .newInst c kw, s => (newInst_frames s c kw).1
+  | .instSet i n v, s => by simp only [step]; exact (instSetCore_frames s i n v).1
+  | .instSetSame i n, s => by
+    simp only [step]
+    split
+    · exact Frame.refl _
+    · split
+      · exact Frame.refl _
+      · exact (instSetCore_frames s i n _).1
+  | .update i kvs, s => by
+    simp only [step]
+    split
+    · exact Frame.refl _
+    · exact (touchKeys_frames i kvs s).1.trans (applyKeys_frames i kvs _).1
+  | .clsSet c n v, s => (clsSet_frames s c n v).1
+  | .flag i n b, s => by
+    simp only [step]
+    split
+    · exact Frame.refl _
+    · rename_i s1 ip hg
+      exact (getParamCore_frames hg).1.trans (Frame.of_heap (SameRD.setConst _ _ _))
+  | .clsFlag c n b, s => by
+    simp only [step]
+    split
+    · exact Frame.refl _
+    · exact Frame.of_heap (SameRD.setConst _ _ _)
+  | .getParam i n, s => by
+    simp only [step]
+    split
+    · exact Frame.refl _
+    · rename_i s1 ip hg
+      exact (getParamCore_frames hg).1
+  | .raise, s => by simp only [step]; exact Frame.refl _
+  | .block i body, s => by
+    simp only [step]
+    split
+    · exact Frame.refl _
+    · rename_i x hx
+      exact (frame_entry s x).trans ((frame_body body _).trans (frame_exit _ i _))
+theorem frame_body : ∀ (ops : List Op) (s : St), Frame s (runBody s ops).1
+  | [], s => by simp only [runBody]; exact Frame.refl _
+  | op :: ops, s => by
+    simp only [runBody]
+    have h1 := frame_step op s
+    split
+    · exact h1.trans (frame_body ops _)
+    · exact h1
+end
+
+mutual
+/-- **every statement that edits no flag explicitly** — blocks of any nesting depth, with any exit —
+leaves the `constant` flag of every existing Parameter object as it was -/
+theorem const_step : ∀ (op : Op) (s : St), op.noFlag = true → ConstFrame s (step s op).1
+  | .newInst c kw, s, _ => (newInst_frames s c kw).2
+  | .instSet i n v, s, _ => by simp only [step]; exact (instSetCore_frames s i n v).2.1
+  | .instSetSame i n, s, _ => by
+    simp only [step]
+    split
+    · exact ConstFrame.refl _
+    · split
+      · exact ConstFrame.refl _
+      · exact (instSetCore_frames s i n _).2.1
+  | .update i kvs, s, _ => by
+    simp only [step]
+    split
+    · exact ConstFrame.refl _
+    · exact (touchKeys_frames i kvs s).2.1.trans (applyKeys_frames i kvs _).2.1
+  | .clsSet c n v, s, _ => (clsSet_frames s c n v).2
+  | .flag i n b, s, h => by simp [Op.noFlag] at h
+  | .clsFlag c n b, s, h => by simp [Op.noFlag] at h
+  | .getParam i n, s, _ => by
+    simp only [step]
+    split
+    · exact ConstFrame.refl _
+    · rename_i s1 ip hg
+      exact (getParamCore_frames hg).2.1
+  | .raise, s, _ => by simp only [step]; exact ConstFrame.refl _
+  | .block i body, s, h => by
+    simp only [step]
+    split
+    · exact ConstFrame.refl _
+    · rename_i x hx
+      have hb : noFlagL body = true := by simpa [Op.noFlag] using h
+      exact block_constFrame hx (frame_body body _) (const_body body _ hb)
+theorem const_body : ∀ (ops : List Op) (s : St), noFlagL ops = true → ConstFrame s (runBody s ops).1
+  | [], s, _ => by simp only [runBody]; exact ConstFrame.refl _
+  | op :: ops, s, h => by
+    simp only [noFlagL, Bool.and_eq_true] at h
+    simp only [runBody]
+    have h1 := const_step op s h.1
+    split
+    · exact h1.trans (const_body ops _ h.2)
+    · exact h1
+end
+
+/-! ### Well-formed states: no dangling Parameter index -/
+
+structure WF (s : St) : Prop where
+  ip : ∀ (i : IId) (x : Inst) (n : Name) (ip : PId), s.insts[i]? = some x → aget x.iparams n = some ip →
+    ip < s.heap.length
+  dp : ∀ (c : CId) (n : Name) (p : PId), aget (clsDict s c) n = some p → p < s.heap.length
+
+theorem findIn_some {s : St} {l : List CId} {n : Name} {p : PId} {k : CId} (h : findIn s l n = some (p, k)) :
+    k ∈ l ∧ aget (clsDict s k) n = some p := by
+  induction l with
+  | nil => simp [findIn] at h
+  | cons k0 l ih =>
+    simp only [findIn] at h
+    split at h
+    · rename_i p0 h0
+      simp only [Option.some.injEq, Prod.mk.injEq] at h
+      obtain ⟨rfl, rfl⟩ := h
+      exact ⟨by simp, h0⟩
+    · obtain ⟨h1, h2⟩ := ih h
+      exact ⟨by simp [h1], h2⟩
+
+theorem WF.desc {s : St} (h : WF s) {c : CId} {n : Name} {p : PId} {o : CId} (hd : descriptor s c n = some (p, o)) :
+    p < s.heap.length := h.dp o n p (findIn_some hd).2
+
+theorem findIn_of_classes {s s' : St} (h : s'.classes = s.classes) (l : List CId) (n : Name) :
+    findIn s' l n = findIn s l n := by
+  induction l with
+  | nil => rfl
+  | cons k l ih => simp only [findIn, clsDict, h, ih]
+
+theorem descriptor_of_classes {s s' : St} (h : s'.classes = s.classes) (c : CId) (n : Name) :
+    descriptor s' c n = descriptor s c n := by
+  unfold descriptor mroOf; rw [h]; exact findIn_of_classes h _ n
+
+theorem WF.of_same {s s' : St} (hi : s'.insts = s.insts) (hc : s'.classes = s.classes)
+    (hl : s.heap.length ≤ s'.heap.length) (h : WF s) : WF s' := by
+  constructor
+  · intro i x n ip hx ha; rw [hi] at hx; exact Nat.lt_of_lt_of_le (h.ip i x n ip hx ha) hl
+  · intro c n p ha
+    have : clsDict s' c = clsDict s c := by unfold clsDict; rw [hc]
+    rw [this] at ha; exact Nat.lt_of_lt_of_le (h.dp c n p ha) hl
+
+theorem stored_of_insts {s s' : St} {j : IId} (h : s'.insts[j]? = s.insts[j]?) (m : Name) :
+    stored s' j m = stored s j m := by unfold stored; rw [h]
+
+/-- creating (or finding) the per-instance copy changes nothing one can see through the flags:
+the copy carries the flags of the Parameter it was copied from -/
+theorem instantiated_gov {s s1 : St} {i : IId} {x x1 : Inst} {n : Name} {p o ip : PId} (hwf : WF s)
+    (hx : s.insts[i]? = some x) (hd : descriptor s x.cls n = some (p, o))
+    (h : instantiated s i x n p = .ok (s1, x1, ip)) :
+    WF s1 ∧ (∀ j m, govFlags s1 j m = govFlags s j m) ∧ (∀ j m, stored s1 j m = stored s j m) ∧
+      governing s1 i n = some ip := by
+  rcases instantiated_spec h with ⟨rfl, rfl, h0⟩ | ⟨q, h0, hq, rfl, rfl, rfl⟩
+  · refine ⟨hwf, fun _ _ => rfl, fun _ _ => rfl, ?_⟩
+    unfold governing pobjOf; rw [hx]; simp only [h0]
+  · have hlt : i < s.insts.length := (List.getElem?_eq_some_iff.1 hx).1
+    have hget : ∀ j, (setInst { s with heap := s.heap ++ [q] } i
+        { x with iparams := aset x.iparams n s.heap.length }).insts[j]? =
+        if j = i then some { x with iparams := aset x.iparams n s.heap.length } else s.insts[j]? :=
+      fun j => setInst_get { s with heap := s.heap ++ [q] } i j _ hlt
+    have hdesc : ∀ c m, descriptor (setInst { s with heap := s.heap ++ [q] } i
+        { x with iparams := aset x.iparams n s.heap.length }) c m = descriptor s c m :=
+      fun c m => descriptor_of_classes (s := s) (by rfl) c m
+    have hheap : ∀ p', p' < s.heap.length → (s.heap ++ [q])[p']? = s.heap[p']? :=
+      fun p' h' => List.getElem?_append_left h'
+    refine ⟨?_, ?_, ?_, ?_⟩
+    · constructor
+      · intro j y m ipm hy hm
+        show ipm < (s.heap ++ [q]).length
+        rw [List.length_append]
+        rw [hget] at hy
+        by_cases e : j = i
+        · rw [if_pos e] at hy; cases hy
+          have hm' : aget (aset x.iparams n s.heap.length) m = some ipm := hm
+          rw [aget_aset] at hm'
+          split at hm'
+          · cases hm'; simp
+          · exact Nat.lt_succ_of_lt (hwf.ip i x m ipm hx hm')
+        · rw [if_neg e] at hy
+          exact Nat.lt_succ_of_lt (hwf.ip j y m ipm hy hm)
+      · intro c m p' ha
+        show p' < (s.heap ++ [q]).length
+        rw [List.length_append]
+        exact Nat.lt_succ_of_lt (hwf.dp c m p' ha)
+    · intro j m
+      unfold govFlags governing
+      rw [hget]
+      by_cases e : j = i
+      · rw [if_pos e, e, hx]
+        simp only [pobjOf]
+        show flagsOf _ (match aget (aset x.iparams n s.heap.length) m with
+          | some ip => some ip | none => _) = _
+        rw [aget_aset, hdesc]
+        by_cases e' : n = m
+        · subst e'
+          simp only [if_true, h0, hd, Option.map_some, flagsOf, Option.bind_some]
+          show ((s.heap ++ [q])[s.heap.length]?).map _ = _
+          rw [List.getElem?_concat_length, hq]
+        · simp only [e', if_false]
+          cases hm : aget x.iparams m with
+          | some ipm =>
+            simp only [flagsOf, Option.bind_some]
+            show ((s.heap ++ [q])[ipm]?).map _ = _
+            rw [hheap _ (hwf.ip i x m ipm hx hm)]
+          | none =>
+            simp only
+            cases hdm : descriptor s x.cls m with
+            | none => rfl
+            | some po =>
+              simp only [Option.map_some, flagsOf, Option.bind_some]
+              show ((s.heap ++ [q])[po.1]?).map _ = _
+              rw [hheap _ (hwf.desc (p := po.1) (o := po.2) hdm)]
+      · rw [if_neg e]
+        cases hy : s.insts[j]? with
+        | none => rfl
+        | some y =>
+          simp only [pobjOf, hdesc]
+          cases hm : aget y.iparams m with
+          | some ipm =>
+            simp only [flagsOf, Option.bind_some]
+            show ((s.heap ++ [q])[ipm]?).map _ = _
+            rw [hheap _ (hwf.ip j y m ipm hy hm)]
+          | none =>
+            simp only
+            cases hdm : descriptor s y.cls m with
+            | none => rfl
+            | some po =>
+              simp only [Option.map_some, flagsOf, Option.bind_some]
+              show ((s.heap ++ [q])[po.1]?).map _ = _
+              rw [hheap _ (hwf.desc (p := po.1) (o := po.2) hdm)]
+    · intro j m
+      unfold stored
+      rw [hget]
+      by_cases e : j = i
+      · rw [if_pos e, e, hx]
+      · rw [if_neg e]
+    · unfold governing pobjOf
+      rw [hget, if_pos rfl]
+      simp only [aget_aset_self]
+
+theorem pobjOf_of_classes {s s' : St} (h : s'.classes = s.classes) (x : Inst) (m : Name) :
+    pobjOf s' x m = pobjOf s x m := by
+  unfold pobjOf; rw [descriptor_of_classes h]
+
+theorem flagsOf_of_heap {s s' : St} (h : s'.heap = s.heap) (p : Option PId) : flagsOf s' p = flagsOf s p := by
+  unfold flagsOf; rw [h]
+
+theorem setInst_values_gov {s : St} {i : IId} {x : Inst} (hwf : WF s) (hx : s.insts[i]? = some x)
+    (vals : List (Name × Obj)) :
+    WF (setInst s i { x with values := vals }) ∧
+    (∀ j m, govFlags (setInst s i { x with values := vals }) j m = govFlags s j m) ∧
+    (∀ j m, stored (setInst s i { x with values := vals }) j m = if j = i then aget vals m else stored s j m) := by
+  have hlt : i < s.insts.length := (List.getElem?_eq_some_iff.1 hx).1
+  have hget := fun j => setInst_get s i j { x with values := vals } hlt
+  refine ⟨?_, ?_, ?_⟩
+  · constructor
+    · intro j y m ipm hy hm
+      rw [hget] at hy
+      by_cases e : j = i
+      · rw [if_pos e] at hy; cases hy; exact hwf.ip i x m ipm hx hm
+      · rw [if_neg e] at hy; exact hwf.ip j y m ipm hy hm
+    · intro c m p' ha; exact hwf.dp c m p' ha
+  · intro j m
+    unfold govFlags governing
+    rw [hget]
+    have hp : ∀ y, pobjOf (setInst s i { x with values := vals }) y m = pobjOf s y m :=
+      fun y => pobjOf_of_classes (s := s) (by rfl) y m
+    have hf : ∀ o, flagsOf (setInst s i { x with values := vals }) o = flagsOf s o :=
+      fun o => flagsOf_of_heap (s := s) (by rfl) o
+    by_cases e : j = i
+    · rw [if_pos e, e, hx, hf]
+      simp only [hp]
+      rfl
+    · rw [if_neg e, hf]
+      cases s.insts[j]? with
+      | none => rfl
+      | some y => simp only [hp]
+  · intro j m
+    unfold stored
+    rw [hget]
+    by_cases e : j = i
+    · rw [if_pos e, if_pos e]
+    · rw [if_neg e, if_neg e]
+
+/-- `setattr(obj, n, v)` after construction: flags as seen from every instance are unchanged, and
+what an instance holds under a constant parameter is unchanged -/
+theorem instSetCore_gov {s : St} (hwf : WF s) (i : IId) (n : Name) (v : Obj) :
+    WF (instSetCore s i n v).1 ∧ (∀ j m, govFlags (instSetCore s i n v).1 j m = govFlags s j m) ∧
+    (∀ j m, isConst (govFlags s j m) = true → stored (instSetCore s i n v).1 j m = stored s j m) := by
+  unfold instSetCore
+  split
+  · exact ⟨hwf, fun _ _ => rfl, fun _ _ _ => rfl⟩
+  · rename_i x hx
+    split
+    · exact ⟨hwf, fun _ _ => rfl, fun _ _ _ => rfl⟩
+    · rename_i p o hd
+      split
+      · exact ⟨hwf, fun _ _ => rfl, fun _ _ _ => rfl⟩
+      · rename_i s1 x1 ip hin
+        obtain ⟨wf1, g1, st1, gov1⟩ := instantiated_gov hwf hx hd hin
+        obtain ⟨_, _, hx1, _⟩ := instantiated_frames hx hin
+        rcases guardedStore_spec s1 i x1 n ip v with h | ⟨h, _, q, hq, hc, _⟩
+        · rw [h]; exact ⟨wf1, g1, fun j m _ => st1 j m⟩
+        · rw [h]
+          obtain ⟨wf2, g2, st2⟩ := setInst_values_gov wf1 hx1 (aset x1.values n v)
+          refine ⟨wf2, fun j m => (g2 j m).trans (g1 j m), ?_⟩
+          intro j m hcm
+          rw [st2]
+          by_cases e : j = i
+          · rw [if_pos e, aget_aset]
+            by_cases e' : n = m
+            · -- the governing Parameter of (i, n) is not constant: the hypothesis is false
+              exfalso
+              subst e e'
+              have : govFlags s1 j n = some (false, q.readonly) := by
+                unfold govFlags; rw [gov1]; simp [flagsOf, hq, hc]
+              rw [← g1, this] at hcm
+              simp [isConst] at hcm
+            · rw [if_neg e', ← st1 j m, e]
+              have : stored s1 i m = aget x1.values m := by unfold stored; rw [hx1]
+              exact this.symm
+          · rw [if_neg e]; exact st1 j m
+
+theorem getParamCore_gov {s s1 : St} {i : IId} {n : Name} {ip : PId} (hwf : WF s)
+    (h : getParamCore s i n = .ok (s1, ip)) :
+    WF s1 ∧ (∀ j m, govFlags s1 j m = govFlags s j m) ∧ (∀ j m, stored s1 j m = stored s j m) ∧
+      governing s1 i n = some ip := by
+  unfold getParamCore at h
+  split at h
+  · cases h
+  · rename_i x hx
+    split at h
+    · cases h
+    · rename_i p o hd
+      split at h
+      · cases h
+      · rename_i s2 x2 ip2 hin
+        simp only [Except.ok.injEq, Prod.mk.injEq] at h
+        obtain ⟨rfl, rfl⟩ := h
+        exact instantiated_gov hwf hx hd hin
+
+theorem touchKeys_gov (i : IId) (kvs : List (Name × Obj)) {s : St} (hwf : WF s) :
+    WF (touchKeys s i kvs) ∧ (∀ j m, govFlags (touchKeys s i kvs) j m = govFlags s j m) ∧
+      (∀ j m, stored (touchKeys s i kvs) j m = stored s j m) := by
+  induction kvs generalizing s with
+  | nil => exact ⟨hwf, fun _ _ => rfl, fun _ _ => rfl⟩
+  | cons kv kvs ih =>
+    obtain ⟨k, v⟩ := kv
+    simp only [touchKeys]
+    split
+    · rename_i s1 ip hg
+      obtain ⟨w1, g1, t1, _⟩ := getParamCore_gov hwf hg
+      obtain ⟨w2, g2, t2⟩ := ih w1
+      exact ⟨w2, fun j m => (g2 j m).trans (g1 j m), fun j m => (t2 j m).trans (t1 j m)⟩
+    · exact ih hwf
+
+theorem applyKeys_gov (i : IId) (kvs : List (Name × Obj)) {s : St} (hwf : WF s) :
+    WF (applyKeys s i kvs).1 ∧ (∀ j m, govFlags (applyKeys s i kvs).1 j m = govFlags s j m) ∧
+      (∀ j m, isConst (govFlags s j m) = true → stored (applyKeys s i kvs).1 j m = stored s j m) := by
+  induction kvs generalizing s with
+  | nil => exact ⟨hwf, fun _ _ => rfl, fun _ _ _ => rfl⟩
+  | cons kv kvs ih =>
+    obtain ⟨k, v⟩ := kv
+    simp only [applyKeys]
+    split
+    · exact ⟨hwf, fun _ _ => rfl, fun _ _ _ => rfl⟩
+    · split
+      · exact ⟨hwf, fun _ _ => rfl, fun _ _ _ => rfl⟩
+      · have h0 := instSetCore_gov hwf i k v
+        cases hres : instSetCore s i k v with
+        | mk s1 r =>
+          rw [hres] at h0
+          cases r
+          case ok =>
+            obtain ⟨w2, g2, t2⟩ := ih h0.1
+            refine ⟨w2, fun j m => (g2 j m).trans (h0.2.1 j m), ?_⟩
+            intro j m hc
+            rw [t2 j m (by rw [h0.2.1]; exact hc)]
+            exact h0.2.2 j m hc
+          all_goals exact h0
+
+/-! ### Well-formedness is preserved by every statement -/
+
+theorem clsDict_set {s : St} {c : CId} {k k' : Cls} (hk : s.classes[c]? = some k) (h' : List Param) (c' : CId) :
+    clsDict { s with heap := h', classes := s.classes.set c k' } c' = if c' = c then k'.dict else clsDict s c' := by
+  have hlt : c < s.classes.length := (List.getElem?_eq_some_iff.1 hk).1
+  unfold clsDict
+  simp only [List.getElem?_set]
+  by_cases e : c' = c
+  · subst e; simp [hlt]
+  · have e' : ¬ c = c' := fun h => e h.symm
+    simp [e, e']
+
+theorem mroOf_set {s : St} {c : CId} {k k' : Cls} (hk : s.classes[c]? = some k) (hm : k'.mro = k.mro)
+    (h' : List Param) (c' : CId) :
+    mroOf { s with heap := h', classes := s.classes.set c k' } c' = mroOf s c' := by
+  have hlt : c < s.classes.length := (List.getElem?_eq_some_iff.1 hk).1
+  unfold mroOf
+  simp only [List.getElem?_set]
+  by_cases e : c = c'
+  · subst e; simp only [↓reduceIte, hlt, hk, hm]
+  · simp [e]
+
+theorem wf_clsSet {s : St} (hwf : WF s) (c : CId) (n : Name) (v : Obj) : WF (step s (.clsSet c n v)).1 := by
+  simp only [step]
+  split
+  · exact hwf
+  · rename_i p owner hd
+    split
+    · rename_i q k hq hk
+      by_cases e : owner = c
+      · simp only [e, if_true]
+        split
+        · exact hwf
+        · exact WF.of_same (s := s) rfl rfl (by simp) hwf
+      · simp only [e, if_false]
+        have key : ∀ h' : List Param, h'.length = s.heap.length + 1 →
+            WF { s with heap := h', classes := s.classes.set c { k with dict := aset k.dict n s.heap.length } } := by
+          intro h' hl
+          constructor
+          · intro i x m ipm hx hm
+            show ipm < h'.length
+            rw [hl]; exact Nat.lt_succ_of_lt (hwf.ip i x m ipm hx hm)
+          · intro c' m p' ha
+            show p' < h'.length
+            rw [hl]
+            rw [clsDict_set hk] at ha
+            split at ha
+            · rename_i ec
+              simp only at ha
+              rw [aget_aset] at ha
+              split at ha
+              · cases ha; exact Nat.lt_succ_self _
+              · have : aget (clsDict s c) m = some p' := by unfold clsDict; rw [hk]; exact ha
+                exact Nat.lt_succ_of_lt (hwf.dp c m p' this)
+            · exact Nat.lt_succ_of_lt (hwf.dp c' m p' ha)
+        split
+        · exact key _ (by simp)
+        · exact key _ (by simp)
+    · exact hwf
+
+theorem wf_newInst {s : St} (hwf : WF s) (c : CId) (kw : List (Name × Obj)) : WF (step s (.newInst c kw)).1 := by
+  simp only [step]
+  split
+  · exact hwf
+  · split
+    · exact hwf
+    · constructor
+      · intro i x m ipm hx hm
+        have hx' : (s.insts ++ [_])[i]? = some x := hx
+        rw [List.getElem?_append] at hx'
+        split at hx'
+        · exact hwf.ip i x m ipm hx' hm
+        · -- the new instance has no per-instance copies
+          cases hd : i - s.insts.length with
+          | zero => rw [hd] at hx'; simp at hx'; subst hx'; simp [aget] at hm
+          | succ d => rw [hd] at hx'; simp at hx'
+      · intro c' m p' ha; exact hwf.dp c' m p' ha
+
+mutual
+/-- every state reachable from a well-formed one is well-formed -/
+theorem wf_step : ∀ (op : Op) (s : St), WF s → WF (step s op).1
+  | .newInst c kw, s, h => wf_newInst h c kw
+  | .instSet i n v, s, h => by simp only [step]; exact (instSetCore_gov h i n v).1
+  | .instSetSame i n, s, h => by
+    simp only [step]
+    split
+    · exact h
+    · split
+      · exact h
+      · exact (instSetCore_gov h i n _).1
+  | .update i kvs, s, h => by
+    simp only [step]
+    split
+    · exact h
+    · exact (applyKeys_gov i kvs (touchKeys_gov i kvs h).1).1
+  | .clsSet c n v, s, h => wf_clsSet h c n v
+  | .flag i n b, s, h => by
+    simp only [step]
+    split
+    · exact h
+    · rename_i s1 ip hg
+      exact WF.of_same (s := s1) rfl rfl (by simp [setConst_length]) (getParamCore_gov h hg).1
+  | .clsFlag c n b, s, h => by
+    simp only [step]
+    split
+    · exact h
+    · exact WF.of_same (s := s) rfl rfl (by simp [setConst_length]) h
+  | .getParam i n, s, h => by
+    simp only [step]
+    split
+    · exact h
+    · rename_i s1 ip hg
+      exact (getParamCore_gov h hg).1
+  | .raise, s, h => by simp only [step]; exact h
+  | .block i body, s, h => by
+    simp only [step]
+    split
+    · exact h
+    · rename_i x hx
+      have h1 : WF (blockEntry s x).1 :=
+        WF.of_same (s := s) rfl rfl (by rw [entry_heap]; exact Nat.le_of_eq (foldConst_sameRD _ _ _).1.symm) h
+      have h2 := wf_body body _ h1
+      exact WF.of_same (s := (runBody (blockEntry s x).1 body).1) rfl rfl
+        (by rw [exit_heap]; exact Nat.le_of_eq (foldConst_sameRD _ _ _).1.symm) h2
+theorem wf_body : ∀ (ops : List Op) (s : St), WF s → WF (runBody s ops).1
+  | [], s, h => by simp only [runBody]; exact h
+  | op :: ops, s, h => by
+    simp only [runBody]
+    have h1 := wf_step op s h
+    split
+    · exact wf_body ops _ h1
+    · exact h1
+end
+
+theorem wf_run (ops : List Op) (s : St) (h : WF s) : WF (run s ops) := by
+  induction ops generalizing s with
+  | nil => exact h
+  | cons op ops ih => simp only [run, List.foldl_cons]; exact ih _ (wf_step op s h)
+
+theorem frame_run (ops : List Op) (s : St) : Frame s (run s ops) := by
+  induction ops generalizing s with
+  | nil => exact Frame.refl s
+  | cons op ops ih => simp only [run, List.foldl_cons]; exact (frame_step op s).trans (ih _)
+
+/-! ### Constructor, guard -/
+
+theorem descriptor_mem_nsNames {s : St} {c : CId} {n : Name} {p : PId} {o : CId}
+    (h : descriptor s c n = some (p, o)) : n ∈ nsNames s c := by
+  obtain ⟨hk, ha⟩ := findIn_some h
+  unfold nsNames
+  rw [List.mem_eraseDups, List.mem_flatMap]
+  refine ⟨o, by simpa using hk, ?_⟩
+  exact (aget_isSome_iff_mem_keys _ _).1 (by rw [ha]; rfl)
+
+theorem aget_aset_isSome {α : Type} (d : List (Name × α)) (k n : Name) (v : α)
+    (h : (aget d n).isSome = true) : (aget (aset d k v) n).isSome = true := by
+  rw [aget_aset]; split
+  · rfl
+  · exact h
+
+theorem refConstants_keeps (s : St) (c : CId) (ns : List Name) (vals : List (Name × Obj)) (n : Name)
+    (h : (aget vals n).isSome = true) : (aget (refConstants s c ns vals) n).isSome = true := by
+  induction ns generalizing vals with
+  | nil => exact h
+  | cons m ns ih =>
+    simp only [refConstants]
+    split
+    · split
+      · split
+        · exact ih _ (aget_aset_isSome _ _ _ _ h)
+        · exact ih _ h
+      · exact ih _ h
+    · exact ih _ h
+
+/-- src: _setup_params: a constant Parameter of the namespace gets its value referenced on the new instance -/
+theorem refConstants_adds (s : St) (c : CId) (ns : List Name) (vals : List (Name × Obj)) {n : Name} {p : PId}
+    {o : CId} {q : Param} (hn : n ∈ ns) (hd : descriptor s c n = some (p, o)) (hq : s.heap[p]? = some q)
+    (hc : q.constant = true) (hname : n ≠ "name") : (aget (refConstants s c ns vals) n).isSome = true := by
+  induction ns generalizing vals with
+  | nil => cases hn
+  | cons m ns ih =>
+    simp only [refConstants]
+    by_cases e : m = n
+    · subst e
+      simp only [hd, hq, hc, Bool.true_and]
+      have : (m != "name") = true := by simpa using hname
+      simp only [this, if_true]
+      exact refConstants_keeps _ _ _ _ _ (by rw [aget_aset_self]; rfl)
+    · have hn' : n ∈ ns := by
+        rcases List.mem_cons.1 hn with h | h
+        · exact absurd h.symm e
+        · exact h
+      split
+      · split
+        · split
+          · exact ih _ hn'
+          · exact ih _ hn'
+        · exact ih _ hn'
+      · exact ih _ hn'
+
+theorem applyKw_keeps (s : St) (c : CId) (kw : List (Name × Obj)) (vals vals' : List (Name × Obj)) (n : Name)
+    (h : applyKw s c kw vals = .ok vals') (hv : (aget vals n).isSome = true) : (aget vals' n).isSome = true := by
+  induction kw generalizing vals with
+  | nil => simp only [applyKw, Except.ok.injEq] at h; subst h; exact hv
+  | cons kv kw ih =>
+    obtain ⟨k, v⟩ := kv
+    simp only [applyKw] at h
+    split at h
+    · cases h
+    · split at h
+      · cases h
+      · split at h
+        · cases h
+        · exact ih _ h (aget_aset_isSome _ _ _ _ hv)
+
+/-- src: _setup_params keyword loop: a keyword naming a read-only Parameter is refused -/
+theorem applyKw_readonly {s : St} (hwf : WF s) (c : CId) (kw : List (Name × Obj)) (vals : List (Name × Obj))
+    (h : ∃ nv ∈ kw, ∃ p o q, descriptor s c nv.1 = some (p, o) ∧ s.heap[p]? = some q ∧ q.readonly = true) :
+    applyKw s c kw vals = .error .typeError := by
+  induction kw generalizing vals with
+  | nil => obtain ⟨_, hm, _⟩ := h; cases hm
+  | cons kv kw ih =>
+    obtain ⟨k, v⟩ := kv
+    simp only [applyKw]
+    split
+    · rfl
+    · rename_i p o hd
+      have hlt := hwf.desc hd
+      split
+      · rename_i hn; rw [List.getElem?_eq_none_iff] at hn; exact absurd hlt (Nat.not_lt.2 hn)
+      · rename_i q hq
+        split
+        · rfl
+        · rename_i hr
+          apply ih
+          obtain ⟨nv, hm, p', o', q', hd', hq', hr'⟩ := h
+          rcases List.mem_cons.1 hm with e | hm'
+          · subst e
+            simp only at hd'
+            rw [hd] at hd'; cases hd'
+            rw [hq] at hq'; cases hq'
+            exact absurd hr' hr
+          · exact ⟨nv, hm', p', o', q', hd', hq', hr'⟩
+
+theorem guardedStore_forbidden {s : St} {i : IId} {x : Inst} {n : Name} {ip : PId} {v : Obj} {q : Param}
+    (hq : s.heap[ip]? = some q)
+    (h : q.readonly = true ∨ (q.constant = true ∧ v ≠ guardOld x n q)) :
+    guardedStore s i x n ip v = (s, .typeError) := by
+  unfold guardedStore
+  simp only [hq]
+  rcases h with hr | ⟨hc, hv⟩
+  · simp [hr]
+  · by_cases hr : q.readonly = true
+    · simp [hr]
+    · have hr' : q.readonly = false := by simpa using hr
+      simp only [hc, hr', Bool.or_false, if_true, Bool.false_eq_true, if_false]
+      rw [if_neg hv]
+
+theorem clsSet_insts (s : St) (c : CId) (n : Name) (v : Obj) : (step s (.clsSet c n v)).1.insts = s.insts := by
+  simp only [step]
+  split
+  · rfl
+  · split
+    · rename_i p owner _ _ _ q k _ _
+      by_cases e : owner = c
+      · simp only [e, if_true]; split <;> rfl
+      · simp only [e, if_false]; split <;> rfl
+    · rfl
+
+/-! ### Class-level assignment with copy-on-write, under single inheritance -/
+
+/-- single inheritance: every class is first on its own MRO, and from any class on the MRO of
+another the rest of that MRO is the MRO of that class -/
+structure Hier (s : St) : Prop where
+  self : ∀ (c : CId) (k : Cls), s.classes[c]? = some k → ∃ rest, k.mro = c :: rest
+  suffix : ∀ (c' c : CId) (pre post : List CId), mroOf s c' = pre ++ c :: post → mroOf s c = c :: post
+
+def fl (q : Param) : Bool × Bool := (q.constant, q.readonly)
+
+theorem flagsOf_eq (s : St) (p : Option PId) : flagsOf s p = p.bind fun p => (s.heap[p]?).map fl := rfl
+
+/-- flags seen from instances and classes depend only on instances, class dictionaries and the
+flags of the Parameter objects -/
+theorem gov_of_flags {s s' : St} (hi : s'.insts = s.insts) (hc : s'.classes = s.classes)
+    (hf : ∀ p : PId, (s'.heap[p]?).map fl = (s.heap[p]?).map fl) :
+    (∀ j m, govFlags s' j m = govFlags s j m) ∧ (∀ c m, clsFlags s' c m = clsFlags s c m) := by
+  have hfo : ∀ o, flagsOf s' o = flagsOf s o := by
+    intro o; rw [flagsOf_eq, flagsOf_eq]; cases o with
+    | none => rfl
+    | some p => exact hf p
+  constructor
+  · intro j m
+    unfold govFlags governing
+    rw [hi, hfo]
+    cases s.insts[j]? with
+    | none => rfl
+    | some y => simp only [pobjOf_of_classes hc]
+  · intro c m
+    unfold clsFlags
+    rw [hfo, descriptor_of_classes hc]
+
+/-- the state right after the metaclass installed the copy: only `c.__dict__[n]` is new -/
+structure CowStep (s s' : St) (c : CId) (n : Name) (q : Param) : Prop where
+  insts : s'.insts = s.insts
+  mro : ∀ c', mroOf s' c' = mroOf s c'
+  dict : ∀ c', clsDict s' c' = if c' = c then aset (clsDict s c) n s.heap.length else clsDict s c'
+  old : ∀ p : PId, p < s.heap.length → (s'.heap[p]?).map fl = (s.heap[p]?).map fl
+  new : (s'.heap[s.heap.length]?).map fl = some (fl q)
+
+theorem cow_findIn_ne {s s' : St} {c : CId} {n : Name} {q : Param} (h : CowStep s s' c n q) {m : Name}
+    (hm : n ≠ m) (l : List CId) : findIn s' l m = findIn s l m := by
+  induction l with
+  | nil => rfl
+  | cons k l ih =>
+    simp only [findIn, ih]
+    have : aget (clsDict s' k) m = aget (clsDict s k) m := by
+      rw [h.dict]; split
+      · rename_i e; subst e; exact aget_aset_ne _ _ hm
+      · rfl
+    rw [this]
+
+theorem cow_findIn_eq {s s' : St} {c : CId} {n : Name} {q : Param} {p : PId} {owner : CId}
+    (hwf : WF s) (hh : Hier s) (h : CowStep s s' c n q)
+    (hd : descriptor s c n = some (p, owner)) (hq : s.heap[p]? = some q) (c' : CId) :
+    ∀ (l pre : List CId), mroOf s c' = pre ++ l →
+      flagsOf s' ((findIn s' l n).map (·.1)) = flagsOf s ((findIn s l n).map (·.1)) := by
+  intro l
+  induction l with
+  | nil => intro _ _; rfl
+  | cons k l ih =>
+    intro pre hpre
+    by_cases e : k = c
+    · subst e
+      -- the copy is found here; without it the lookup from `k` on is `k`'s own lookup
+      have h1 : findIn s' (k :: l) n = some (s.heap.length, k) := by
+        simp only [findIn, h.dict, if_true, aget_aset_self]
+      have h2 : findIn s (k :: l) n = some (p, owner) := by
+        have := hh.suffix c' k pre l hpre
+        unfold descriptor at hd; rw [this] at hd; exact hd
+      rw [h1, h2]
+      simp only [Option.map_some, flagsOf_eq, Option.bind_some]
+      rw [h.new, hq]; rfl
+    · have hdk : aget (clsDict s' k) n = aget (clsDict s k) n := by rw [h.dict, if_neg e]
+      simp only [findIn, hdk]
+      cases ha : aget (clsDict s k) n with
+      | some p' =>
+        simp only [Option.map_some, flagsOf_eq, Option.bind_some]
+        exact h.old p' (hwf.dp k n p' ha)
+      | none =>
+        simp only
+        exact ih (pre ++ [k]) (by rw [hpre]; simp)
+
+/-- **copy-on-write keeps the protection**: after `C.n = v` installed a copy of the inherited
+Parameter on `C`, every class and every instance sees the same flags as before -/
+theorem cow_gov {s s' : St} {c : CId} {n : Name} {q : Param} {p : PId} {owner : CId}
+    (hwf : WF s) (hh : Hier s) (h : CowStep s s' c n q)
+    (hd : descriptor s c n = some (p, owner)) (hq : s.heap[p]? = some q) :
+    (∀ j m, j < s.insts.length → govFlags s' j m = govFlags s j m) ∧ (∀ c' m, clsFlags s' c' m = clsFlags s c' m) := by
+  have hcls : ∀ c' m, flagsOf s' ((descriptor s' c' m).map (·.1)) = flagsOf s ((descriptor s c' m).map (·.1)) := by
+    intro c' m
+    unfold descriptor
+    rw [h.mro]
+    by_cases e : n = m
+    · subst e; exact cow_findIn_eq hwf hh h hd hq c' _ [] rfl
+    · rw [cow_findIn_ne h e]
+      cases hf : findIn s (mroOf s c') m with
+      | none => rfl
+      | some po =>
+        simp only [Option.map_some, flagsOf_eq, Option.bind_some]
+        exact h.old po.1 (hwf.dp po.2 m po.1 (findIn_some (p := po.1) (k := po.2) hf).2)
+  refine ⟨?_, hcls⟩
+  intro j m _
+  unfold govFlags governing
+  rw [h.insts]
+  cases hy : s.insts[j]? with
+  | none => rfl
+  | some y =>
+    simp only [pobjOf]
+    cases hip : aget y.iparams m with
+    | some ip =>
+      simp only [flagsOf_eq, Option.bind_some]
+      exact h.old ip (hwf.ip j y m ip hy hip)
+    | none => exact hcls y.cls m
+
+theorem clsSet_gov {s : St} (hwf : WF s) (hh : Hier s) (c : CId) (n : Name) (v : Obj) :
+    (∀ j m, j < s.insts.length → govFlags (step s (.clsSet c n v)).1 j m = govFlags s j m) ∧
+    (∀ c' m, clsFlags (step s (.clsSet c n v)).1 c' m = clsFlags s c' m) ∧ Hier (step s (.clsSet c n v)).1 := by
+  simp only [step]
+  split
+  · exact ⟨fun _ _ _ => rfl, fun _ _ => rfl, hh⟩
+  · rename_i p owner hd
+    split
+    · rename_i q k hq hk
+      have hplt : p < s.heap.length := (List.getElem?_eq_some_iff.1 hq).1
+      by_cases e : owner = c
+      · simp only [e, if_true]
+        split
+        · exact ⟨fun _ _ _ => rfl, fun _ _ => rfl, hh⟩
+        · -- only the default of p changes
+          have hf : ∀ p' : PId, ((s.heap.set p { q with default := v })[p']?).map fl = (s.heap[p']?).map fl := by
+            intro p'
+            rw [List.getElem?_set]
+            by_cases e' : p = p'
+            · subst e'; simp only [↓reduceIte, hplt, hq, Option.map_some, fl]
+            · simp [e']
+          have g := gov_of_flags (s := s) (s' := { s with heap := s.heap.set p { q with default := v } }) rfl rfl hf
+          exact ⟨fun j m _ => g.1 j m, g.2, ⟨hh.self, hh.suffix⟩⟩
+      · simp only [e, if_false]
+        -- the class table with the copy installed
+        have hier' : ∀ h' : List Param,
+            Hier { s with heap := h', classes := s.classes.set c { k with dict := aset k.dict n s.heap.length } } := by
+          intro h'
+          have hmro := fun c' => mroOf_set (k' := { k with dict := aset k.dict n s.heap.length }) hk rfl h' c'
+          constructor
+          · intro c' k' hk'
+            have hk'' : (s.classes.set c { k with dict := aset k.dict n s.heap.length })[c']? = some k' := hk'
+            rw [List.getElem?_set] at hk''
+            by_cases ec : c = c'
+            · subst ec
+              have hlt : c < s.classes.length := (List.getElem?_eq_some_iff.1 hk).1
+              simp only [hlt, if_true, Option.some.injEq] at hk''
+              subst hk''
+              exact hh.self c k hk
+            · simp only [ec, if_false] at hk''
+              exact hh.self c' k' hk''
+          · intro c' c0 pre post hp
+            rw [hmro] at hp ⊢
+            exact hh.suffix c' c0 pre post hp
+        have cow : ∀ h' : List Param, (∀ p' : PId, p' < s.heap.length → (h'[p']?).map fl = (s.heap[p']?).map fl) →
+            (h'[s.heap.length]?).map fl = some (fl q) →
+            CowStep s { s with heap := h', classes := s.classes.set c { k with dict := aset k.dict n s.heap.length } } c n q := by
+          intro h' ho hn
+          refine ⟨rfl, fun c' => mroOf_set (k' := { k with dict := aset k.dict n s.heap.length }) hk rfl h' c', ?_, ho, hn⟩
+          intro c'
+          rw [clsDict_set hk]
+          split
+          · rename_i ec; subst ec
+            show aset k.dict n s.heap.length = aset (clsDict s c') n s.heap.length
+            unfold clsDict; rw [hk]
+          · rfl
+        split
+        · have g := cow_gov hwf hh (cow (s.heap ++ [q])
+            (fun p' hp' => by rw [List.getElem?_append_left hp'])
+            (by rw [List.getElem?_concat_length]; rfl)) hd hq
+          exact ⟨g.1, g.2, hier' _⟩
+        · have g := cow_gov hwf hh (cow ((s.heap ++ [q]).set s.heap.length { q with default := v })
+            (fun p' hp' => by
+              rw [List.getElem?_set, if_neg (Nat.ne_of_gt hp'), List.getElem?_append_left hp'])
+            (by rw [List.getElem?_set]; simp [fl])) hd hq
+          exact ⟨g.1, g.2, hier' _⟩
+    · exact ⟨fun _ _ _ => rfl, fun _ _ => rfl, hh⟩
+
+theorem hier_of_classes {s s' : St} (h : s'.classes = s.classes) (hh : Hier s) : Hier s' := by
+  constructor
+  · intro c k hk; rw [h] at hk; exact hh.self c k hk
+  · intro c' c pre post hp
+    have e : ∀ x, mroOf s' x = mroOf s x := fun x => by unfold mroOf; rw [h]
+    rw [e] at hp ⊢; exact hh.suffix c' c pre post hp
+
+/-- statements other than blocks and class-level assignments never touch a class -/
+theorem step_classes (s : St) (op : Op) (h1 : op.isBlock = false)
+    (h2 : ∀ c n v, op ≠ .clsSet c n v) : (step s op).1.classes = s.classes := by
+  cases op with
+  | newInst c kw =>
+    simp only [step]
+    split
+    · rfl
+    · split <;> rfl
+  | instSet i n v => simp only [step]; exact (instSetCore_frames s i n v).2.2
+  | instSetSame i n =>
+    simp only [step]
+    split
+    · rfl
+    · split
+      · rfl
+      · exact (instSetCore_frames s i n _).2.2
+  | update i kvs =>
+    simp only [step]
+    split
+    · rfl
+    · exact (applyKeys_frames i kvs _).2.2.trans (touchKeys_frames i kvs s).2.2
+  | clsSet c n v => exact absurd rfl (h2 c n v)
+  | flag i n b =>
+    simp only [step]
+    split
+    · rfl
+    · rename_i s1 ip hg; exact (getParamCore_frames hg).2.2
+  | clsFlag c n b => simp only [step]; split <;> rfl
+  | getParam i n =>
+    simp only [step]
+    split
+    · rfl
+    · rename_i s1 ip hg; exact (getParamCore_frames hg).2.2
+  | raise => rfl
+  | block i body => simp [Op.isBlock] at h1
+
+theorem newInst_gov (s : St) (c : CId) (kw : List (Name × Obj)) (j : IId) (m : Name) (hj : j < s.insts.length) :
+    govFlags (step s (.newInst c kw)).1 j m = govFlags s j m := by
+  simp only [step]
+  split
+  · rfl
+  · split
+    · rfl
+    · rename_i k hk vals hv
+      unfold govFlags governing
+      have hins : (s.insts ++ [({ cls := c, values := vals, iparams := [] } : Inst)])[j]? = s.insts[j]? :=
+        List.getElem?_append_left hj
+      simp only [hins]
+      rw [flagsOf_of_heap (s := s) (by rfl)]
+      cases s.insts[j]? with
+      | none => rfl
+      | some y => simp only []; rw [pobjOf_of_classes (s := s) (by rfl)]
 
 end ParamVerif.Store.Const
